@@ -131,9 +131,13 @@ void ThreePointsNumericalDerivative::updateDerivatives(const ParameterList& para
     }
 
 
+    // Parameters that are currently moved away from the requested point:
+    vector<string> toReset;
+    if (functionChanged)
+      toReset.push_back(lastVar);
+
     if (computeCrossD2_)
     {
-      string lastVar1, lastVar2;
       for (unsigned int i = 0; i < variables_.size(); i++)
       {
         string var1 = variables_[i];
@@ -153,17 +157,16 @@ void ThreePointsNumericalDerivative::updateDerivatives(const ParameterList& para
           vector<string> vars(2);
           vars[0] = var1;
           vars[1] = var2;
-          if (i > 0 && j > 0)
+          for (const auto& v : toReset)
           {
-            if (lastVar1 != var1 && lastVar1 != var2)
-              vars.push_back(lastVar1);
-            if (lastVar2 != var1 && lastVar2 != var2)
-              vars.push_back(lastVar2);
+            if (v != var1 && v != var2)
+              vars.push_back(v);
           }
           p = parameters.createSubList(vars);
 
-          double value1 = function_->getParameterValue(var1);
-          double value2 = function_->getParameterValue(var2);
+          // The function may still be at a previous probe: start from the requested values.
+          double value1 = p[0].getValue();
+          double value2 = p[1].getValue();
           double h1 = (1. + std::abs(value1)) * h_;
           double h2 = (1. + std::abs(value2)) * h_;
 
@@ -195,22 +198,28 @@ void ThreePointsNumericalDerivative::updateDerivatives(const ParameterList& para
           }
           catch (ConstraintException& ce)
           {
+            // Leave the function at the requested point:
+            if (function1_)
+              function1_->enableFirstOrderDerivatives(computeD1_);
+            if (function2_)
+              function2_->enableSecondOrderDerivatives(computeD2_);
+            function_->setParameters(parameters);
             throw Exception("ThreePointsNumericalDerivative::setParameters. Could not compute cross derivatives at limit.");
           }
 
-          lastVar1 = var1;
-          lastVar2 = var2;
+          toReset = vars;
+          toReset.resize(2);
         }
       }
     }
 
-    // Reset last parameter and compute analytical derivatives if any.
+    // Reset last parameter(s) and compute analytical derivatives if any.
     if (function1_)
       function1_->enableFirstOrderDerivatives(computeD1_);
     if (function2_)
       function2_->enableSecondOrderDerivatives(computeD2_);
-    if (functionChanged)
-      function_->setParameters(parameters.createSubList(lastVar));
+    if (!toReset.empty())
+      function_->setParameters(parameters.createSubList(toReset));
   }
   else
   {
